@@ -46,6 +46,7 @@ type Model struct {
 	qual      types.Qualifier
 	defs      map[string]storeDef
 	lazies    map[string]*lazyMerge
+	allocStores map[string]allocStore
 	recording map[string]HeapKey // when non-nil: heap keys read (used to compute the footprint of opaque predicates)
 }
 
@@ -278,6 +279,13 @@ type State struct {
 	// in the snapshot have the same value in both states (the snapshot heap is closed under reachability).
 	abase *State
 	anew  map[string]bool
+	// merged from states of different epochs: heap keys none of them had touched yet are merged lazily on first use
+	mergedFrom *mergeInfo
+}
+
+type mergeInfo struct {
+	conds []string
+	sts   []*State
 }
 
 // touch: a write that may concern an object that existed before the allocation base
@@ -304,6 +312,7 @@ func (s *State) Clone() *State {
 	for k, v := range s.ghost {
 		n.ghost[k] = v
 	}
+	n.mergedFrom = s.mergedFrom
 	if s.abase != nil {
 		n.abase = s.abase
 		n.anew = make(map[string]bool, len(s.anew))
@@ -366,6 +375,28 @@ func (m *Model) heapGet(s *State, k HeapKey) string {
 		}
 		return t
 	}
+	if s.mergedFrom != nil {
+		mi := s.mergedFrom
+		terms := make([]string, len(mi.sts))
+		same := true
+		for i, p := range mi.sts {
+			terms[i] = m.heapGet(p, k)
+			if terms[i] != terms[0] {
+				same = false
+			}
+		}
+		t := terms[0]
+		if !same {
+			acc := terms[len(terms)-1]
+			for i := len(terms) - 2; i >= 0; i-- {
+				acc = Ite(mi.conds[i], terms[i], acc)
+			}
+			t = m.ctx.Fresh(k.Key, k.Sort)
+			m.ctx.Assume(Eq(t, acc))
+		}
+		s.heap[k.Key] = t
+		return t
+	}
 	name := fmt.Sprintf("%s@%d", k.Key, s.epoch)
 	if !m.ctx.declared[name] {
 		m.ctx.Const(name, k.Sort)
@@ -396,15 +427,25 @@ func (m *Model) heapSet(s *State, k HeapKey, term string) {
 
 // heapSetAt: like heapSet for a term of the form store(H, idx, ..): a write to object idx only
 func (m *Model) heapSetAt(s *State, k HeapKey, idx, term string) {
+	prev := m.heapGet(s, k)
 	n := m.ctx.Fresh(k.Key, k.Sort)
 	m.ctx.Assume(Eq(n, term))
 	s.heap[k.Key] = n
 	if !s.anew[idx] {
 		s.touch()
+	} else {
+		if m.allocStores == nil {
+			m.allocStores = map[string]allocStore{}
+		}
+		m.allocStores[n] = allocStore{prev, idx}
 	}
 }
 
 type storeDef struct{ prev, idx, val string }
+
+// allocStore: version `name` of a heap array is `prev` with one object written that was freshly allocated at the time
+// (the initialisation of a new object)
+type allocStore struct{ prev, idx string }
 
 // heapStore: H' = store(H, idx, val), remembered so that later reads of the same index are
 // forwarded syntactically (keeps terms small and lets statically known dynamic types through).
@@ -415,6 +456,11 @@ func (m *Model) heapStore(s *State, k HeapKey, idx, val string) {
 	s.heap[k.Key] = n
 	if !s.anew[idx] {
 		s.touch()
+	} else {
+		if m.allocStores == nil {
+			m.allocStores = map[string]allocStore{}
+		}
+		m.allocStores[n] = allocStore{prev, idx}
 	}
 	if m.defs == nil {
 		m.defs = map[string]storeDef{}
@@ -537,6 +583,19 @@ func (m *Model) mergeStates(conds []string, sts []*State) *State {
 	if !sameEpoch {
 		m.ctx.nfresh++
 		out.epoch = 1000000 + m.ctx.nfresh
+		out.mergedFrom = &mergeInfo{conds: append([]string(nil), conds...), sts: append([]*State(nil), sts...)}
+	} else if sts[0].mergedFrom != nil {
+		same := true
+		for _, s := range sts[1:] {
+			if s.mergedFrom != sts[0].mergedFrom {
+				same = false
+			}
+		}
+		if same {
+			out.mergedFrom = sts[0].mergedFrom
+		} else {
+			out.mergedFrom = &mergeInfo{conds: append([]string(nil), conds...), sts: append([]*State(nil), sts...)}
+		}
 	}
 	ks := make([]string, 0, len(keys))
 	for k := range keys {
